@@ -115,8 +115,9 @@ class C19(Prop):
                                       "matching and the gate being passed, or verification/validation did not precede "
                                       "extraction/installation, or something outside the install directory changed"
                                       if mon else "observable events / places written differ from the model's step order"),
-            "hwm": "VerifyIndex: " + ("the recorded mark decreased, moved without an accepted call that passed every "
-                                      "check, or an older index was accepted" if mon else
+            "hwm": "VerifyIndex: " + ("the recorded mark decreased, is not the version of the call just accepted (root-"
+                                      "signed or freshness-only), moved without an accepted call that passed every "
+                                      "check, or an index older than a previously accepted version was accepted" if mon else
                                       "result classes / marks are not explained by the model"),
             "crash": ("after a kill the file at the path was neither the complete old nor the complete new content "
                       "(or an installed artifact without verification / a manifest entry without artifact)" if mon else
@@ -138,6 +139,8 @@ class C19(Prop):
             elif k == "hwm":
                 n = len((i.get("batches") or [[]])[0])
                 d["hwm_concurrent_batches"] = d.get("hwm_concurrent_batches", 0) + (n >= 2)
+                d["hwm_freshness_only_calls"] = d.get("hwm_freshness_only_calls", 0) + sum(
+                    1 for b in (i.get("batches") or []) for x in b if x.get("root") != "good" and x.get("fsig") == "good")
             elif k == "crash":
                 d["kills"] = d.get("kills", 0) + len(o.get("kills") or []) + bool(o.get("killed"))
         return d
